@@ -537,3 +537,6 @@ def parts(tier):
         HypPart('write-read', cases(), check, 2400, 64000),
         HypPart('write-read-small', cases(max_channels=3, max_frames=3), check, 1200, 32000),
     ]
+
+
+RULE += '  Added after the seeding rounds: part write-history (one frame array written 2..3 times with different options; arguments must come back unchanged); identities padded to four characters with subsets naming them exactly or bare (either reading accepted, the sections must agree).'
